@@ -231,3 +231,41 @@ def chm_member_at_padded_end(rng, rframes=2, wb=16, last_entry_zero=False):
     f, fields = chm.build(entries, bytes(s0), version=3, chunk_size=4096, density=2)
     return {"kind": "chm", "files": {"f.chm": f}, "members": [{"name": b"/ok.bin", "section": 1, "offset": 0, "data": data[:10]}],
             "meta": {"order": ["f.chm"], "directed": "member-at-padded-end"}}
+
+
+def oab_crc_zero_case(rng, patch=False, kinds=("uncompressed", "verbatim")):
+    """a well-formed OAB full file / patch with two LZX DELTA blocks; the second block's correct CRC
+    (register style: init 0xffffffff, not inverted) is exactly 0x00000000 — an ordinary value in this
+    format.  The blocks are coded as single LZX blocks of the given kinds (an 'uncompressed' LZX block
+    keeps decoding after almost any payload alteration)."""
+    import struct
+    from vgen import oab, lzx, lz
+    blocks = []; base = b""
+    for k in range(2):
+        n = rng.choice([40, 64, 77, 200])
+        data = bytes(rng.choice(b"abcdefgh \n") for _ in range(n))
+        if k == 1:
+            data = data[:-4] + struct.pack("<I", oab.crc(data[:-4]))     # feeding the register to itself clears it
+            assert oab.crc(data) == 0
+        ref = bytes(rng.randrange(256) for _ in range(rng.choice([0, 50]))) if patch else b""
+        wb = oab.window_bits(((len(ref) + 32767) & ~32767) + n if patch else n)
+        toks = [("L", x) for x in data]
+        frames, total, info = lzx.lzx_frames(toks, wb, delta=True, ref=ref, blocks=[(kinds[k % len(kinds)], n)], rng=rng)
+        payload = b"".join(frames)
+        if patch:
+            blocks.append({"data": data, "payload": payload, "source_size": len(ref)}); base += ref
+        else:
+            blocks.append({"data": data, "payload": payload, "lzx": True})
+    plain = b"".join(b["data"] for b in blocks)
+    if patch:
+        f = oab.patch_file(blocks, len(base))
+        files = {"patch.oab": f, "base.oab": base}; order = ["patch.oab", "base.oab"]
+    else:
+        files = {"full.oab": oab.full_file(blocks)}; order = ["full.oab"]
+    # layout of the blocks inside the first file: (header offset, payload offset, payload length)
+    pos = 28 if patch else 16; layout = []
+    for b in blocks:
+        layout.append((pos, pos + 16, len(b["payload"]))); pos += 16 + len(b["payload"])
+    return {"kind": "oab", "files": files, "members": [{"name": b"out", "data": plain}],
+            "meta": {"open": "oabinc" if patch else "oab", "order": order, "nblocks": 2, "layout": layout, "patch": patch,
+                     "crcs": [oab.crc(b["data"]) for b in blocks], "blocks": [{"lzx_blocks": [kinds[k % len(kinds)]]} for k in range(2)]}}
